@@ -734,4 +734,28 @@ theorem hash_puzzle_parts (sh pkh : Bytes) (h1 : 1 ≤ sh.length ∧ sh.length <
       simpa [decodeParts, Tok.part] using this
 
 
+/-- **The hash-puzzle output is never mistaken for a key-bearing or data type**: the script `AddHashPuzzleOutput` builds is
+    reported as non-standard, whatever the two hashes. -/
+theorem hash_puzzle_is_nonstandard (sh pkh s : Bytes) (h1 : 1 ≤ sh.length ∧ sh.length < 2 ^ 32)
+    (h2 : 1 ≤ pkh.length ∧ pkh.length < 2 ^ 32) (hs : hashPuzzleScript sh pkh = some s) :
+    scriptType s = some .nonstandard := by
+  obtain ⟨s', hs', hd⟩ := hash_puzzle_parts sh pkh h1 h2
+  rw [hs] at hs'; cases hs'
+  -- the script starts with OP_HASH160 and is longer than one byte
+  have hshape : ∃ t, s = 0xa9 :: t := by
+    unfold hashPuzzleScript at hs
+    cases ha : encodeParts [sh] with
+    | none => simp [ha] at hs
+    | some a =>
+      cases hb : encodeParts [pkh] with
+      | none => simp [ha, hb] at hs
+      | some b => simp [ha, hb] at hs; exact ⟨_, hs.symm⟩
+  obtain ⟨t, rfl⟩ := hshape
+  have hp2 : isP2PKH (0xa9 :: t) = false := by simp [isP2PKH, opDUP]
+  have hdat : isData (0xa9 :: t) = false := by simp [isData, opRETURN]
+  have hpk : isP2PK (0xa9 :: t) = some false := by simp [isP2PK, hd]
+  have hms : isMultiSigOut (0xa9 :: t) = some false := by simp [isMultiSigOut, hd, isSmallIntOp]
+  have hin : isP2PKHInscription (0xa9 :: t) = some false := by simp [isP2PKHInscription, hd, isP2PKHInscriptionParts]
+  simp [scriptType, hp2, hdat, hpk, hms, hin]
+
 end GoBT.C14
